@@ -1615,7 +1615,8 @@ class Alarm(Component):
         trigger = self.get("TRIGGER")
         if trigger is None:
             return "START"
-        return trigger.params.get("RELATED", "START")
+        # parameter values outside quotes are case-insensitive (RFC 5545, 2.)
+        return str(trigger.params.get("RELATED", "START")).upper()
 
     @TRIGGER_RELATED.setter
     def TRIGGER_RELATED(self, value: str):
